@@ -186,6 +186,9 @@ def assign(
         if name not in union.shape().members:
             raise ValueError(f"Field {name} not present in union {union}")
 
+        if not isinstance(fields, AssignType) and set(fields) != {name}:
+            raise KeyError(f"Selected fields {set(fields)} do not match the assigned union member {name}")
+
         yield from rec_call(name)
     else:
         if not isinstance(fields, AssignType):
